@@ -130,7 +130,7 @@ Definition push_cev (w : world) (e : cevent) : list cevent := if w_synced w then
    (the scripted outcome says whether the write reached the server at all) *)
 Definition apply_patch (w : world) (name : str) (cs : list cidr) (o : patch_outcome) : world :=
   match o with
-  | PFail => w
+  | PFail | PTimeoutNotApplied => w
   | POk | PTimeoutApplied =>
       match find_anode name (w_nodes w) with
       | None => w
@@ -172,6 +172,7 @@ Fixpoint apply_effects (w : world) (fx : list effect) : world :=
   | FxUpdateCC o' out :: fx' => apply_effects (apply_update_cc w o' out) fx'
   | FxCreateCC _ _ :: fx' => apply_effects w fx'      (* only the default ClusterCIDR is created; not exercised *)
   | FxEvent _ _ :: fx' => apply_effects w fx'
+  | FxGetNode _ _ :: fx' => apply_effects w fx'
   end.
 
 Definition res_code {A} (r : res A) : N := match r with Ok _ => 1 | Err _ => 2 | Panic => 3 end.
@@ -195,12 +196,23 @@ Section Step.
     | Some a => match an_cidrs a with [] => true | have => same_cidrs have cs end
     end.
 
+  (* the parseable pod CIDRs of all nodes in the node cache *)
+  Definition held_cidrs (l : list nodeobj) : list cidr :=
+    flat_map (fun n => flat_map (fun pc => match pc with PGood c _ => [c] | PBad => [] end) (n_cidrs n)) l.
+
+  (* does the API server show exactly these podCIDRs on that node right now? *)
+  Definition api_same (w : world) (name : str) (cs : list cidr) : bool :=
+    match find_anode name (w_nodes w) with
+    | None => false
+    | Some a => match an_cidrs a with [] => false | have => same_cidrs have cs end
+    end.
+
   Definition run_node_sync (w : world) (cached : option nodeobj) (key : str) (outs : list patch_outcome) : world * obs :=
     match w_ctl w with
     | None => (w, no_obs)
     | Some m =>
         let reread := find_node key (w_ncache w) in
-        let '(m', r, fx) := sync_node po lab (can_patch w key) m cached reread outs in
+        let '(m', r, fx) := sync_node po lab (can_patch w key) (api_same w key) (held_cidrs (w_ncache w)) m cached reread outs in
         (apply_effects (after_call w r m') fx, mkObs (res_code r) fx false)
     end.
 
